@@ -85,6 +85,15 @@ ResMatch(kind, e, g) ==
               [] kind = "zip"   -> /\ Len(e.ok) = Len(g.ok)
                                    /\ \A i \in 1..Len(e.ok) :
                                         SM(e.ok[i].a, g.ok[i].a) /\ e.ok[i].b = g.ok[i].b /\ SM(e.ok[i].c, g.ok[i].c)
+              [] kind = "files"  -> /\ Len(e.ok) = Len(g.ok)
+                                    /\ \A i \in 1..Len(e.ok) :
+                                         /\ SM(e.ok[i].path, g.ok[i].path) /\ SM(e.ok[i].user, g.ok[i].user)
+                                         /\ SM(e.ok[i].group, g.ok[i].group) /\ SM(e.ok[i].linkto, g.ok[i].linkto)
+                                         /\ e.ok[i].mode = g.ok[i].mode /\ e.ok[i].mtime = g.ok[i].mtime
+                                         /\ e.ok[i].size = g.ok[i].size /\ e.ok[i].flags = g.ok[i].flags
+                                         /\ e.ok[i].digest = g.ok[i].digest
+                                         /\ (IF "none" \in DOMAIN e.ok[i].caps THEN "none" \in DOMAIN g.ok[i].caps
+                                             ELSE "some" \in DOMAIN g.ok[i].caps /\ SM(e.ok[i].caps.some, g.ok[i].caps.some))
               [] kind = "script" -> /\ SM(e.ok.script, g.ok.script) /\ g.ok.flags = e.ok.flags
                                     /\ OptSLM(e.ok.prog, g.ok.prog)
 
@@ -96,6 +105,7 @@ GetOk(b, h, g) ==
     ELSE IF a \in DOMAIN ScriptTags THEN ResMatch("script", ScriptExpected(b, h, ScriptTags[a]), g.res)
     ELSE IF a = "get_changelog_entries" THEN ResMatch("zip", ChangelogExpected(b, h), g.res)
     ELSE IF a = "get_file_paths" THEN ResMatch("strs", FilePathsExpected(b, h), g.res)
+    ELSE IF a = "get_file_entries" THEN ResMatch("files", FileEntriesExpected(b, h), g.res)
     ELSE IF a = "get_installed_size" THEN ResMatch("val", InstalledSizeExpected(b, h), g.res)
     ELSE IF a = "is_source_package" THEN g.res = Ok(Find(b, h, 1106) # 0)
     ELSE IF a = "get_payload_compressor" THEN
